@@ -43,6 +43,9 @@ func (s *Protocol) Invoke(ctx context.Context, req []byte) (rsp []byte) {
 	rspPackage := requestf.ResponsePacket{}
 	is := codec.NewReader(req[4:])
 	reqPackage.ReadFrom(is)
+	// the transport reads the packet type from the context to decide whether to reply; record it
+	// before the implementation runs, so that a handle timeout does not answer a one-way request
+	current.SetPacketTypeFromContext(ctx, reqPackage.CPacketType)
 
 	recvPkgTs, ok := current.GetRecvPkgTsFromContext(ctx)
 	if !ok {
